@@ -55,4 +55,18 @@ CHECKS = {
         note="PARTIAL: liveness under Go's scheduler is not proved ('Stop terminates' = quit always enabled + bounded worker-only runs; 'never blocked' = bounded "
              "consumer-free worker steps re-enable send); both are exercised by timeouts/goroutine probes. Go memory model taken as atomic interleaving. "
              "Only ConcurrentQueue (bitcoind backend) is exercised; btcd.go/neutrino.go use private inline queue loops of the cin=0,cout=0 shape. No axioms."),
+    "C17": dict(
+        text="18 theorems (Print Assumptions: closed) about the wrapper logic of snacl.go, for every secretbox/scrypt/sha256 satisfying the named ideal "
+             "laws. Ciphertexts: decrypt after encrypt = id incl. the empty plaintext; any other key, any modification of any single byte of nonce||box "
+             "(hence every bit flip) and every strict truncation give an error (ErrMalformed below 24 bytes, else ErrDecryptFailed), never data; distinct "
+             "nonces give distinct ciphertexts. Passphrases: DeriveKey accepts a passphrase iff it has the creating passphrase's HMAC key block; the "
+             "exact-passphrase clause is proved outside the recorded finding (passphrases of at most 64 bytes not ending in NUL) and refuted inside it by "
+             "a witness theorem. Stored parameters: the 88-byte codec round-trips for all in-range parameters, rejects every other length; after "
+             "Marshal/Unmarshal the same passphrase re-derives the same key; any single-byte change of the 88 bytes makes DeriveKey reject the correct "
+             "passphrase. Tie to the code: real snacl and waddrmgr.Manager.Encrypt/Decrypt run for every bit flip and every truncation length of "
+             "ciphertexts, wrong keys, near-miss passphrases, every bit flip of the 88 marshalled bytes; model evaluated with vm_compute at the same positions.",
+        note="PARTIAL: the strength of secretbox/scrypt/sha256 enters only as hypotheses (exact: open-after-seal, kdf depends on the passphrase through "
+             "the HMAC key block; idealisations: seal binds key/nonce/message, no near or prefix ciphertext opens, kdf/hash injective) - all satisfied "
+             "together by a toy instance (C17_laws_satisfiable); exercised, not proved. Nonce freshness is a hypothesis. Known finding "
+             "hmac_equivalent_passphrase_accepted (inherent to PBKDF2-HMAC, no compatible fix). Observation: a stored r=0 or p=0 makes DeriveKey panic. No axioms."),
 }
